@@ -1,15 +1,16 @@
 import UmProofs.RouteE2EExample
 import UmProps.C01
 import UmProps.C12
+import UmProofs.RouteE2ENodes
 /-!
 # C02, broker layer: `ViewOk` and `Synced` from reachable broker states
 
 For every bounded run (`PlanBound` on every prefix, as in C01) the view the broker serves for a
 cluster under any migration limit is `viewP lc` (`lc` = the limited cluster) and satisfies
 `ViewOk`, given the three facts that are *not* broker invariants:
-the cluster name is not empty (`ClusterName::try_from("")` succeeds), the two Redis nodes of every
-proxy of the cluster have different addresses (finding F02a), and — for a slot under migration —
-source and destination proxy differ.  `SyncedWith` says, in terms of the broker's own query
+the cluster name is not empty (`ClusterName::try_from("")` succeeds) and — for a slot under
+migration — source and destination proxy differ.  That the two Redis nodes of every proxy have
+different addresses *is* an invariant since the fix of finding F02a (`nodesDistinct_of_run`).  `SyncedWith` says, in terms of the broker's own query
 `proxyView`, that every proxy of the cluster has installed what is served for it; it implies
 `Synced`.
 -/
@@ -118,8 +119,9 @@ theorem pendingNormal_viewP (cl : Cluster) (hS : SlotInv cl) (hV : PartitionView
 
 /-! ## distinct node addresses per proxy -/
 
-/-- the two Redis nodes of each proxy of the cluster have different addresses (what `add_proxy`
-does not check: finding F02a) -/
+/-- the two Redis nodes of each proxy of the cluster have different addresses.  Since /repo bf43b2d
+`add_proxy` refuses equal node addresses (fix of finding F02a), so this holds of every cluster of
+every reachable store: `nodesDistinct_of_run`. -/
 def NodesDistinct (cl : Cluster) : Prop := ∀ c ∈ cl.chunks, c.node0 ≠ c.node1 ∧ c.node2 ≠ c.node3
 
 /-- addresses of the masters a chunk places on proxy `a` -/
@@ -267,6 +269,11 @@ theorem nodesDistinct_of_addrs {c c' : Cluster} (h : c'.chunks.map Chunk.addrs =
   rw [← e0, ← e1, ← e2, ← e3]
   exact this
 
+/-- every stored cluster of every run has `NodesDistinct` (`UmProofs/RouteE2ENodes.lean`: `add_proxy`
+is the only operation that registers a proxy and it refuses equal node addresses) -/
+theorem nodesDistinct_of_run (ops : List Op) (cl : Cluster) (h : cl ∈ (run ops).clusters) : NodesDistinct cl :=
+  chunk_nodes_distinct (run ops) (reachable_run ops) cl h
+
 /-- what the broker serves for cluster `name` under `limit` in a bounded run: the view `v`, with
 everything the routing theorems need -/
 structure Served (s : Store) (name : String) (limit : Nat) (cl : Cluster) (v : VCluster) : Prop where
@@ -278,9 +285,10 @@ structure Served (s : Store) (name : String) (limit : Nat) (cl : Cluster) (v : V
 
 theorem served_of_run (ops : List Op) (hb : ∀ k, Plan.PlanBound (run (ops.take k)))
     (name : String) (limit : Nat) (cl : Cluster) (hc : (run ops).findCluster name = some cl)
-    (hvalid : validName name = true) (hname : name ≠ "") (hnodes : NodesDistinct cl) :
+    (hvalid : validName name = true) (hname : name ≠ "") :
     ∃ v, Served (run ops) name limit cl v := by
   obtain ⟨hcm, hcn⟩ := Store.findCluster_some hc
+  have hnodes : NodesDistinct cl := nodesDistinct_of_run ops cl hcm
   have hinv := Um.Broker.C01.C01_store_invariants ops hb cl hcm
   obtain ⟨lc, hl, hlc, hepoch, hlname, _, _, haddrs⟩ := limitMigration_spec cl limit hinv
   obtain ⟨r1, r2, r3, r4, _⟩ := Um.Broker.C12_accounting (run ops) (reachable_run ops)
@@ -366,9 +374,5 @@ def runCluster : Cluster := ((run runOps).findCluster "c").get runOps_found
 
 theorem runCluster_found : (run runOps).findCluster "c" = some runCluster := by
   unfold runCluster; simp
-
-theorem runCluster_nodes : NodesDistinct runCluster := by
-  unfold NodesDistinct
-  decide
 
 end Um.E2E
